@@ -9,10 +9,18 @@ type cellEpoch struct {
 	wC   int
 	hasW bool
 	rd   map[int]int
+	wWhere string
 }
 
 type raceReport struct {
 	detail string
+}
+
+func (e *Engine) where() string {
+	if e.top == nil {
+		return "?"
+	}
+	return e.top.fn.String() + " (" + e.prog.Fset.Position(e.top.pos).String() + ")"
 }
 
 func (e *Engine) raceWrite(p *Value) {
@@ -49,15 +57,20 @@ func (e *Engine) raceAccessKey(key interface{}, write bool) {
 	}
 	// a previous write must happen-before this access
 	if ep.hasW && ep.wG != me.id && ep.wC > me.vc[ep.wG] {
-		e.races = append(e.races, raceReport{"write by g" + itoa(ep.wG) + " unordered with access by g" + itoa(me.id)})
+		if len(e.races) < 4 {
+			e.races = append(e.races, raceReport{"write by g" + itoa(ep.wG) + " at " + ep.wWhere + " unordered with access by g" + itoa(me.id) + " at " + e.where()})
+		}
 	}
 	if write {
 		for g, c := range ep.rd {
 			if g != me.id && c > me.vc[g] {
-				e.races = append(e.races, raceReport{"read by g" + itoa(g) + " unordered with write by g" + itoa(me.id)})
+				if len(e.races) < 4 {
+					e.races = append(e.races, raceReport{"read by g" + itoa(g) + " unordered with write by g" + itoa(me.id) + " at " + e.where()})
+				}
 			}
 		}
 		ep.hasW, ep.wG, ep.wC = true, me.id, me.vc[me.id]+1
+		ep.wWhere = e.where()
 		ep.rd = nil
 	} else {
 		if ep.rd == nil {
